@@ -102,6 +102,8 @@ pub(crate) struct Model {
     /// per block: (tx id, action index, packet sequence, predicted success) of received packets
     pub(crate) recv_predictions: Vec<([u8; 32], u64, u64, bool)>,
     pub(crate) withdrawals_honoured: u64,
+    /// workload probes raised while applying successful transactions (drained by the runner)
+    pub(crate) probes: Vec<&'static str>,
     /// ibc-prefixed id -> trace-prefixed denomination known to the chain
     pub(crate) known_traces: BTreeMap<AssetId, String>,
 }
@@ -830,6 +832,12 @@ impl Model {
                     }
                 };
                 let aid = asset_id(&a.denom);
+                self.probes.push(match (a.bridge_address.is_some(), ics20_is_source(&a.denom, a.source_channel.as_str())) {
+                    (true, true) => "ics20.withdrawal.from-bridge.source",
+                    (true, false) => "ics20.withdrawal.from-bridge.sink",
+                    (false, true) => "ics20.withdrawal.plain.source",
+                    (false, false) => "ics20.withdrawal.plain.sink",
+                });
                 if let Err(e) = self.debit(&from, &aid, a.amount) {
                     out.push(finding(
                         "C01",
